@@ -39,3 +39,29 @@ theorem codeOrRead_suffix (ec : Option Nat) (bs : Bytes) (c : Nat) (r : Bytes)
       · simp at h
 
 end Amqp.Codec
+
+namespace Amqp.Codec
+open Amqp.Gen.Codes
+
+theorem nestAll_flattenPairs_insert (acc : List (Value × Value)) (k v : Value) :
+    nestAll (flattenPairs (mapInsert acc k v)) ≤ max (nestAll (flattenPairs acc)) (max (nest k) (nest v)) := by
+  induction acc with
+  | nil => simp [mapInsert, flattenPairs, nestAll]
+  | cons p rest ih =>
+    obtain ⟨k', v'⟩ := p
+    simp only [mapInsert]
+    split
+    · simp only [flattenPairs, nestAll]; omega
+    · simp only [flattenPairs, nestAll] at ih ⊢; omega
+
+theorem nestAll_insertAll : ∀ (vs : List Value) (acc : List (Value × Value)),
+    nestAll (flattenPairs (insertAll acc vs)) ≤ max (nestAll (flattenPairs acc)) (nestAll vs)
+  | [], acc => by simp [insertAll, nestAll]
+  | [x], acc => by simp [insertAll, nestAll]; omega
+  | k :: v :: rest, acc => by
+    have h1 := nestAll_insertAll rest (mapInsert acc k v)
+    have h2 := nestAll_flattenPairs_insert acc k v
+    simp only [insertAll, nestAll] at h1 ⊢
+    omega
+
+end Amqp.Codec
